@@ -24,6 +24,9 @@ func contractServes(c *Contract, prop string) bool {
 	if c.Inline {
 		return false // loop annotations for a body that is verified inside its callers only
 	}
+	if prop == "C16" {
+		return true // the access discipline (data-race freedom) is checked in every function under contract
+	}
 	if hasProp(c.Props, prop) {
 		return true
 	}
